@@ -247,8 +247,17 @@ def target_glue():
         ret = [n for n in ast.walk(fn) if isinstance(n, ast.Return)]
         sess.check("post", [], z3.BoolVal(len(ret) == 1 and ast.unparse(ret[0].value) == "_calculate_impedances(self._elements, frequencies)"), fn.lineno, label="Circuit.get_impedances == _calculate_impedances(self._elements, frequencies)")
         fn2 = core.find_def("circuit/circuit_builder", "CircuitBuilder.to_circuit")
+        # the returned value is `<a Parser>.process(self._to_string())`, computed by THIS call (possibly through one local name);
+        # nothing is stored on the builder (no cached circuit that a later add() could leave stale)
         ret2 = [n for n in ast.walk(fn2) if isinstance(n, ast.Return)]
-        sess.check("post", [], z3.BoolVal(len(ret2) == 1 and ast.unparse(ret2[0].value) == "Parser().process(self._to_string())"), fn2.lineno, label="CircuitBuilder.to_circuit == Parser().process(self._to_string())")
+        val = ret2[0].value if len(ret2) == 1 else None
+        if isinstance(val, ast.Name):
+            defs = [n for n in ast.walk(fn2) if isinstance(n, (ast.Assign, ast.AnnAssign)) and any(isinstance(t, ast.Name) and t.id == val.id for t in (n.targets if isinstance(n, ast.Assign) else [n.target]))]
+            val = defs[0].value if len(defs) == 1 else None
+        ok = isinstance(val, ast.Call) and isinstance(val.func, ast.Attribute) and val.func.attr == "process" and len(val.args) == 1 and ast.unparse(val.args[0]) == "self._to_string()"
+        sess.check("post", [], z3.BoolVal(bool(ok)), fn2.lineno, label="CircuitBuilder.to_circuit == Parser().process(self._to_string())")
+        stores = [n for n in ast.walk(fn2) if isinstance(n, ast.Attribute) and isinstance(n.ctx, (ast.Store, ast.Del)) and isinstance(n.value, ast.Name) and n.value.id == "self"]
+        sess.check("frame", [], z3.BoolVal(not stores), fn2.lineno, label="CircuitBuilder.to_circuit stores nothing on the builder")
     return (f"{CIR}:Circuit.get_impedances", CIR, "Circuit.get_impedances", run)
 
 
